@@ -170,6 +170,24 @@ def streams(rng, tier):
     a = Stream("tokenise-wellformed", "hcore", ops, judge=judge_tokdec_tree, rule=RULE)
     a.shrinkable = False
     yield a
+    # the three ways to obtain a tokenizer must agree (the stream above judges Decoder::tokens() against the tree)
+    c_ops = []
+    for sq in seqs[:4000 if q else 40000]:
+        e = b"".join(W.enc(t) for t in sq)
+        if len(e) > 600: continue
+        pre = rng.choice([b"", b"", b"\x18\x2a", b"\xff", b"\x9f\x00"])
+        c_ops.append(f"tokdec2 {len(pre)} {(pre + e).hex()}")
+        if len(e) > 1 and rng.random() < 0.2:
+            c_ops.append(f"tokdec2 0 {e[:rng.randrange(1, len(e))].hex()}")
+    def judge_ctor(op, impl, model, spec):
+        parts = impl.split(" | ")
+        return "ok" if len(parts) == 3 and parts[0] == parts[1] == parts[2] else "violation"
+    a2 = Stream("tokenizer-constructors", "hcore", c_ops, model_ops=["nop"] * len(c_ops), judge=judge_ctor,
+                rule="tokdec2: Decoder::tokens() at a position, Tokenizer::new(&bytes[pos..]) and Tokenizer::from(decoder) yield the same tokens and the same end / error "
+                     "(registered tags such as 55799 first in the input included); no model op, the first of the three is what tokenise-wellformed judges",
+                nontrivial=lambda op, impl: " | " in impl)
+    a2.shrinkable = False
+    yield a2
     # re-encode the implementation's own tokens: must be the preferred form (identity on preferred input)
     re_ops = []
     for op, res, p in zip(ops, a.impl_results, prefs):
@@ -215,5 +233,8 @@ def streams(rng, tier):
 
 def replay_streams(rp):
     op = rp["original_op"]
+    if op.startswith("tokdec2"):
+        return [Stream("replay", "hcore", [op], model_ops=["nop"],
+                       judge=lambda o, i, m, s: "ok" if len(i.split(" | ")) == 3 and len(set(i.split(" | "))) == 1 else "violation")]
     j = judge_tokdec_tree if "#T=" in op else judge_reenc if "#P=" in op else judge_bytes if op.startswith("tokdec") else None
     return [Stream("replay", "hcore", [op], judge=j)]
